@@ -44,8 +44,13 @@ def regenerate() -> list[str]:
                        capture_output=True, text=True, timeout=120)
     if r.returncode != 0:
         msgs.append('gen_sched failed: ' + r.stderr[-2000:])
+    for tool, out in (('gen_jobs.py', 'GenJobs.v'), ('gen_taskmgr.py', 'GenTaskMgr.v')):
+        r = subprocess.run(['python3', str(VERIF / 'tools' / tool), str(REPO), str(COQ / 'gen' / out)],
+                           capture_output=True, text=True, timeout=120)
+        if r.returncode != 0:
+            msgs.append(f'{tool} failed: ' + r.stderr[-2000:])
     # (source the translator does not recognise is not reported here: GenSched.v then has no definitions and the
-    #  property files that state the tie - C01 C02 C09 C10 - do not build, the others are not concerned)
+    #  property files that state the tie - C01 C02 C09 C10 (scheduler), C07 C08 (job classes), C11 C12 (task managers) - do not build, the others are not concerned)
     return msgs
 
 
